@@ -13,3 +13,19 @@ Print Assumptions C15_split_keep_concat.
 Theorem C15_split_keep_nonempty : forall s, split_keep s <> [].
 Proof. exact split_keep_nonempty. Qed.
 Print Assumptions C15_split_keep_nonempty.
+
+(* split_lines(keepends=False) = re.split(r'\n|\r\n|\r', s): "keeps or drops line ends as asked" -
+   the same lines, each without its one line end, the last line unchanged; same count; no break character left *)
+Require Import LinesDrop.
+Theorem C15_split_plain_spec : forall s, lines_rel (split_plain s) (split_keep s).
+Proof. exact split_plain_spec. Qed.
+Print Assumptions C15_split_plain_spec.
+Theorem C15_split_plain_same_count : forall s, length (split_plain s) = length (split_keep s).
+Proof. exact split_plain_same_count. Qed.
+Print Assumptions C15_split_plain_same_count.
+Theorem C15_split_plain_no_break : forall s, Forall no_break (split_plain s).
+Proof. exact split_plain_no_break. Qed.
+Print Assumptions C15_split_plain_no_break.
+Theorem C15_split_plain_nonempty : forall s, split_plain s <> [].
+Proof. exact split_plain_nonempty. Qed.
+Print Assumptions C15_split_plain_nonempty.
